@@ -5102,6 +5102,10 @@ class DfaCompileCtx:
             if not to_replace.is_fallthrough:
                 continue
 
+            # An accepting state is not a dummy: stopping in it is what makes the parser report DONE
+            if transition.target in self.dfa.accepting_states:
+                continue
+
             if len(to_replace.actions) > 0:
                 max_count = ProgramData.option(ProgramOption.MAX_SHORTCIRCUIT_FALLTHROUGH) - ProgramData.option(ProgramOption.MAX_SHORTCIRCUIT_ACTION_PENALTY)*(len(to_replace.actions)-1)
                 if ignore_map_counter[(frozenset(to_replace.on_values), to_replace.target)] > max_count:
